@@ -12,8 +12,10 @@ import (
 	"fmt"
 	"net"
 	"strings"
+	"sync"
 	"time"
 
+	"github.com/orda-io/orda/client/pkg/errors"
 	"github.com/orda-io/orda/client/pkg/iface"
 	"github.com/orda-io/orda/client/pkg/model"
 	"github.com/orda-io/orda/client/pkg/orda"
@@ -49,6 +51,76 @@ type rtClient struct {
 	reps map[string]*replica
 }
 
+// rtHiccup (C13): the broker drops its connections just before a second client's first sync, so that the exchange which
+// makes its datatype SUBSCRIBED also fails to subscribe the notification topic: the client reports the error AND the
+// transition to subscribed, exactly once
+func rtHiccup(c *Ctx, e *wenv, addr, kind string, h int) {
+	col := fmt.Sprintf("rh%d", h)
+	if _, err := e.svc.CreateCollection(gocontext.TODO(), &model.CollectionMessage{Collection: col}); err != nil {
+		panic(err)
+	}
+	desc := []string{"client 0 creates k; the broker drops its connections; client 1 subscribes to k"}
+	mk := func(i int, hs *orda.Handlers) (orda.Client, iface.Datatype) {
+		cl := orda.NewClient(&orda.ClientConfig{ServerAddr: addr, NotificationAddr: e.mq.Addr(), CollectionName: col, SyncType: model.SyncType_REALTIME}, fmt.Sprintf("rh%d", i))
+		if err := cl.Connect(); err != nil {
+			panic(fmt.Sprintf("connect: %v", err))
+		}
+		var d interface{}
+		switch kind {
+		case "counter":
+			d = cl.SubscribeOrCreateCounter("k", hs)
+		case "map":
+			d = cl.SubscribeOrCreateMap("k", hs)
+		default:
+			d = cl.SubscribeOrCreateList("k", hs)
+		}
+		return cl, d.(iface.Datatype)
+	}
+	a, _ := mk(0, nil)
+	defer a.Close()
+	if err := a.Sync(); err != nil {
+		panic(fmt.Sprintf("first sync: %v", err))
+	}
+	var mu sync.Mutex
+	transitions, errs := 0, 0
+	hs := orda.NewHandlers(
+		func(dt orda.Datatype, old model.StateOfDatatype, new model.StateOfDatatype) {
+			mu.Lock()
+			if new == model.StateOfDatatype_SUBSCRIBED {
+				transitions++
+			}
+			mu.Unlock()
+		}, nil,
+		func(dt orda.Datatype, es ...errors.OrdaError) { mu.Lock(); errs += len(es); mu.Unlock() })
+	b, bd := mk(1, hs)
+	defer b.Close()
+	e.mq.Outage(400 * time.Millisecond)
+	time.Sleep(60 * time.Millisecond) // the clients notice the lost connection; their first reconnect attempt is refused, the next comes a second later
+	_ = b.Sync()
+	deadline := time.Now().Add(2 * time.Second)
+	for time.Now().Before(deadline) {
+		mu.Lock()
+		done := transitions > 0 || (errs > 0 && bd.GetState() == model.StateOfDatatype_SUBSCRIBED)
+		mu.Unlock()
+		if done {
+			break
+		}
+		time.Sleep(time.Millisecond)
+	}
+	time.Sleep(20 * time.Millisecond) // both handlers are called from one goroutine, the state change first
+	mu.Lock()
+	tr, er := transitions, errs
+	mu.Unlock()
+	time.Sleep(450 * time.Millisecond) // the outage is over before the next history connects
+	c.Count("rt-hiccup")
+	if er > 0 {
+		c.Count("rt-hiccup-subscription-failed")
+	}
+	if bd.GetState() == model.StateOfDatatype_SUBSCRIBED && tr != 1 {
+		c.Violate("C13", "state-change-not-reported-once", fmt.Sprintf("the datatype became SUBSCRIBED in an exchange that also reported %d error(s); the state-change handler reported the transition %d times", er, tr), desc)
+	}
+}
+
 func sliceRealtime(c *Ctx, kind string) {
 	n := c.N
 	if n == 0 {
@@ -58,6 +130,16 @@ func sliceRealtime(c *Ctx, kind string) {
 	for h := 0; h < n; h++ {
 		e := getEnv()
 		addr := rtServe(e)
+		if h%3 == 0 {
+			if p, msg := guarded(func() { rtHiccup(c, e, addr, kind, h) }); p {
+				c.Count("history-ended-by-panic")
+				c.Violate("C13", "harness-panic-hiccup", "panic while driving the implementation: "+msg, nil)
+				theEnv = nil
+				continue
+			}
+			e = getEnv()
+			addr = rtServe(e)
+		}
 		w := &wworld{c: c, e: e, kind: kind}
 		col := fmt.Sprintf("rt%d", h)
 		w.cols = []string{col}
